@@ -23,7 +23,9 @@ ASSUMPTIONS = ['class attributes rewritten by BooleanAlgebra.__init__ are not re
 
 TEXTS = ['gpl 2.0 or mit', 'mit or gpl 2.0', 'mit and gpl 2.0 and mit', 'mit and gpl 2.0', '(mit or foo) and bar', 'bar and (foo or mit)',
          'gplv2 and x mit', 'gnu gpl v2 or mit', 'mit', 'mit or gpl 2.0', 'MIT and (gnu gpl v2 with classpath)', 'foo bar', 'mit mit', '()', 'a and (or b)',
-         'classpath', 'mit with classpath', 'foo', 'FOO', 'Foo or mit', 'foo and FOO', 'BAR and (FOO or mit)', 'x with mit', 'gpl 2.0 or later or foo', '', '  ', 'mit or', 'a,b']
+         'classpath', 'mit with classpath', 'foo', 'FOO', 'Foo or mit', 'foo and FOO', 'BAR and (FOO or mit)', 'x with mit', 'gpl 2.0 or later or foo', '', '  ', 'mit or', 'a,b',
+         # one-word aliases: known to the default tokenizer only, whatever was built on the instance before
+         'gplv2', 'gplv2 or mit', 'GPLv2 with classpath', 'mit and GPLV2']
 
 
 def gen_history(rng):
